@@ -9,7 +9,10 @@ Every reader is a `Step`: its result (`XRes`: value + remaining input, `io.EOF`-
 error, or a PANIC at a named site), the number of bytes it ALLOCATES (`make`, `&T{}`, `string(...)`,
 `append` growth, `io.ReadAll`, the scratch of `binary.Read`) and loop/primitive `ticks`.  Every Go
 expression that can panic (index, slice, `make(n)`, type assertion) is an explicit checked operation
-(`xIndex`, `xSlice`, …) that returns `.panic site` exactly when Go would; `modelledSites` lists them.
+(`xIndex`, `xSlice`, …) that returns `.panic site` exactly when Go would.  A site is named
+`<pkg>.<function>#<ordinal>:<kind>`, the key it has in the inventory regenerated from the source
+(Gen/PanicSitesEvl.lean); Model/EventLogSites.lean classifies every site of that inventory and
+`C07_evl_sites` (Props/C07Evl.lean) is the obligation that the two lists are equal.
 
 Values: `Proofs/EventLogCost.lean` proves `(xReadX b).res = lift (EventLog.readX ⟨true, k⟩ b)` for every
 reader, i.e. this model refines the C18 model of the repaired code (`Cfg.strict = true`, any reader
@@ -117,7 +120,10 @@ def xSlice (s : Bytes) (lo hi : Nat) (site : String) (rest : Bytes) : Step Bytes
 def xMake (n : Nat) (site : String) (rest : Bytes) : Step Unit :=
   if n < 2 ^ 63 then ⟨.ok () rest, n, 0⟩ else .panicAt site
 
-/-! ## sizes of the structures the readers allocate (go/types Sizes, amd64; obligation C07E_sizes) -/
+/-! ## sizes of the structures the readers allocate (gc/amd64).  The literals below are what the cost
+    theorems were proved with; `C07_evl_consts` (Props/C07Evl.lean) is the obligation that they equal the
+    values regenerated from the source on every run (Gen/EvlConsts.lean: `allocs`, `eventFactoryTypes`,
+    `maxPrealloc`, `eventSignatureSize`). -/
 
 def sizeofTCGPCREvent2 : Nat := 48
 def sizeofTaggedDigest : Nat := 32
@@ -127,7 +133,8 @@ def sizeofCountingReader : Nat := 24
 def sizeofBytesBuffer : Nat := 40
 /-- go: eventlog.maxPrealloc -/
 def maxPrealloc : Nat := 4096
-/-- go: hex.EncodeToString of the 16-byte signature: a 32-byte buffer and the 32-byte string -/
+/-- go: hex.EncodeToString of the 16-byte signature: a 32-byte buffer and the 32-byte string
+    (= 4 · EventSignatureSize, obligation C07_evl_consts) -/
 def hexKeyAlloc : Nat := 64
 
 /-! ## primitive reads -/
@@ -165,10 +172,10 @@ deriving Repr
 def exactLoop (size avail : Nat) : Nat → Nat → Nat → ExactRun
   | 0, _, _ => ⟨.short 0, 0, 0⟩
   | fuel + 1, read, len =>
-    if len < read then ⟨.panic "readExact#slice#1", 0, 1⟩               -- buf[read:]
+    if len < read then ⟨.panic "eventlog.readExact#2:slice", 0, 1⟩               -- buf[read:]
     else if avail < len then ⟨.short avail, 0, 1⟩                       -- io.ReadFull: err != nil
     else if len = size then ⟨.full, 0, 1⟩                               -- uint64(read) == want
-    else if ¬ nextLen size len < 2 ^ 63 then ⟨.panic "readExact#make#2", 0, 1⟩   -- make([]byte, capacity)
+    else if ¬ nextLen size len < 2 ^ 63 then ⟨.panic "eventlog.readExact#5:make", 0, 1⟩   -- make([]byte, capacity)
     else ⟨(exactLoop size avail fuel len (nextLen size len)).out,
           nextLen size len + (exactLoop size avail fuel len (nextLen size len)).alloc,
           1 + (exactLoop size avail fuel len (nextLen size len)).ticks⟩
@@ -178,7 +185,7 @@ def exactLoop (size avail : Nat) : Nat → Nat → Nat → ExactRun
     `io.EOF` iff not one byte was read (`err == io.EOF && read > 0` becomes io.ErrUnexpectedEOF). -/
 def xReadExact (size : Nat) (rest : Bytes) : Step Bytes :=
   if size = 0 then .pure [] rest
-  else if ¬ (min size maxPrealloc) < 2 ^ 63 then .panicAt "readExact#make#0"
+  else if ¬ (min size maxPrealloc) < 2 ^ 63 then .panicAt "eventlog.readExact#1:make"
   else
     match (exactLoop size rest.length (size + 1) 0 (min size maxPrealloc)).out with
     | .full =>
@@ -204,9 +211,9 @@ def xReadSizedArray (w : Nat) (b : Bytes) : Step Bytes :=
 def xReadCStr (b : Bytes) : Step Bytes :=
   (xReadSizedArray 1 b).andThen fun data rest =>
     if data.length = 0 then .failed
-    else (xIndex data (data.length - 1) "ByteSizedCStr.Unmarshal#index#0" rest).andThen fun last rest =>
+    else (xIndex data (data.length - 1) "eventlog.ByteSizedCStr.Unmarshal#1:index" rest).andThen fun last rest =>
       if last != 0 then .failed
-      else ((xSlice data 0 (data.length - 1) "ByteSizedCStr.Unmarshal#slice#1" rest).charge (data.length - 1) 0)
+      else ((xSlice data 0 (data.length - 1) "eventlog.ByteSizedCStr.Unmarshal#2:slice" rest).charge (data.length - 1) 0)
 
 /-- go: Uint32SizedArray.Unmarshal -/
 def xReadU32Array (b : Bytes) : Step Bytes := xReadSizedArray 4 b
@@ -224,7 +231,7 @@ def xReadDigest (b : Bytes) : Step Digest :=
     match tpmAlgoSize alg with
     | none => .failed
     | some sz =>
-      (xMake sz "TaggedDigest.Unmarshal#make#0" rest).andThen fun _ rest =>
+      (xMake sz "eventlog.TaggedDigest.Unmarshal#1:make" rest).andThen fun _ rest =>
         ((xReadFull 0 sz rest).noEof).map fun d => ⟨alg, d⟩
 
 /-- The element loop of Uint32SizedArrayT[*TaggedDigest].Unmarshal (repaired): one tick per element,
@@ -285,10 +292,10 @@ def xReadEventData (rt : Runtime) (b : Bytes) : Step EventData :=
   (xReadLE 4 b).andThen fun size rest =>
   (xReadExact size rest).andThen fun chunk rest =>
     if size ≥ 16 then
-      (xSlice chunk 0 16 "TCGEventData.Unmarshal#slice#0" rest).andThen fun sig rest =>   -- chunk[:EventSignatureSize]
+      (xSlice chunk 0 16 "eventlog.TCGEventData.Unmarshal#1:slice" rest).andThen fun sig rest =>   -- chunk[:EventSignatureSize]
         if sig == event3Signature then
           -- factory(): &SP800155Event3{}; chunk[EventSignatureSize:]
-          ((xSlice chunk 16 chunk.length "TCGEventData.Unmarshal#slice#1" rest).charge
+          ((xSlice chunk 16 chunk.length "eventlog.TCGEventData.Unmarshal#4:slice" rest).charge
               (hexKeyAlloc + sizeofSP800155Event3) 0).andThen fun payload rest =>
             match (xUnmarshalEvent3 rt payload).res with
             | .ok e _ => ⟨.ok (.event3 e) rest, (xUnmarshalEvent3 rt payload).alloc, (xUnmarshalEvent3 rt payload).ticks⟩
@@ -350,19 +357,22 @@ def xReadLog (rt : Runtime) (b : Bytes) : Step Log :=
     `loc[:16]`, `loc[16:]`, `name[len(name)-1]`, `name[len(name)-2]` -/
 def xVariableLocatorDecode (loc : Bytes) : Outcome (Bytes × Bytes) :=
   if loc.length ≤ 18 then .err "short"
-  else if ¬ 16 ≤ loc.length then .panic "variableLocatorDecode#slice#0"       -- loc[:16]
-  else if ¬ 16 ≤ loc.length then .panic "variableLocatorDecode#slice#1"       -- loc[16:]
+  else if ¬ 16 ≤ loc.length then .panic "exel.variableLocatorDecode#1:slice"       -- loc[:16]
+  else if ¬ 16 ≤ loc.length then .panic "exel.variableLocatorDecode#2:slice"       -- loc[16:]
   else if (loc.drop 16).length % 2 ≠ 0 then .err "odd"
   else
     match (loc.drop 16)[(loc.drop 16).length - 1]?, (loc.drop 16)[(loc.drop 16).length - 2]? with
-    | none, _ => .panic "variableLocatorDecode#index#2"                        -- name[len(name)-1]
-    | some _, none => .panic "variableLocatorDecode#index#3"                   -- name[len(name)-2]
+    | none, _ => .panic "exel.variableLocatorDecode#3:index"                        -- name[len(name)-1]
+    | some _, none => .panic "exel.variableLocatorDecode#4:index"                   -- name[len(name)-2]
     | some l1, some l2 =>
       if l1 == 0 && l2 == 0 then .ok (Extract.efiSwap (loc.take 16), loc.drop 16) else .err "unterminated"
 
 /-- go: eventlog.ucs2toUTF8 — C16's model already carries the one panic site
-    (`utf8encoding[len(utf8encoding)-1]` on an empty decoding) -/
-def xUcs2toUTF8 (name : Bytes) : Outcome String := Extract.ucs2toUTF8 name
+    (`utf8encoding[len(utf8encoding)-1]` on an empty decoding); here under its inventory name -/
+def xUcs2toUTF8 (name : Bytes) : Outcome String :=
+  match Extract.ucs2toUTF8 name with
+  | .panic _ => .panic "exel.ucs2toUTF8#2:index"
+  | r => r
 
 /-- ticks of ucs2toUTF8: the decoder visits every code unit, validateUCS2Codepoints every rune -/
 def ucs2Ticks (name : Bytes) : Nat := name.length + (Extract.decodeUtf16 name).length
@@ -371,7 +381,7 @@ def ucs2Ticks (name : Bytes) : Nat := name.length + (Extract.decodeUtf16 name).l
     `contents[4:]` -/
 def xEfiVarContents (contents : Bytes) : Outcome Bytes :=
   if contents.length < 4 then .err "illformed"
-  else if ¬ 4 ≤ contents.length then .panic "ReadVariable#slice#0"
+  else if ¬ 4 ≤ contents.length then .panic "exel.EfiVarFSReader.ReadVariable#1:slice"
   else .ok (contents.drop 4)
 
 /-- go: what exel.Locate does with an untrusted (type, locator) before it touches the outside world:
@@ -435,22 +445,5 @@ def xFromEventLog (rt : Runtime) (mfr : Bytes) (b : Bytes) : Outcome LocateReq :
   | .eof => .err "eventlog"
   | .fail => .err "eventlog"
   | .panic p => .panic p
-
-/-! ## the inventory of panic-capable expressions this model accounts for
-    (function, ordinal in source order within the function, kind) — obligation C07E_sites -/
-
-def modelledSites : List (String × Nat × String) :=
-  [("readExact", 0, "make"), ("readExact", 1, "slice"), ("readExact", 2, "make"),
-   ("ByteSizedCStr.Unmarshal", 0, "index"), ("ByteSizedCStr.Unmarshal", 1, "slice"),
-   ("Uint32SizedArrayT.Unmarshal", 0, "assert"),
-   ("EfiGUID.Unmarshal", 0, "slice"), ("EfiGUID.Unmarshal", 1, "slice"),
-   ("TaggedDigest.Unmarshal", 0, "make"),
-   ("TCGEventData.Unmarshal", 0, "slice"), ("TCGEventData.Unmarshal", 1, "slice"),
-   ("TCGPCClientPCREvent.Unmarshal", 0, "slice"),
-   ("variableLocatorDecode", 0, "slice"), ("variableLocatorDecode", 1, "slice"),
-   ("variableLocatorDecode", 2, "index"), ("variableLocatorDecode", 3, "index"),
-   ("ucs2toUTF8", 0, "index"), ("ucs2toUTF8", 1, "slice"),
-   ("EfiVarFSReader.ReadVariable", 0, "slice"),
-   ("RIMEventsFromEventLog", 0, "assert")]
 
 end GceTcb.EvlCost
